@@ -21,7 +21,11 @@ RULE = ("per class (LRUCache, SimpleCache, HybridCache, DiskCache) and max_size 
         "shared=True variants of the same trees at smaller depth (one in-process manager); ALL schedules of two clients "
         "issuing 1-2 put/get/in/len/clear operations each on one cache (step scheduler: every call on the cache's "
         "dict/list/lock is one step), each schedule replayed on the small-step model SharedSteps and the outcome "
-        "compared schedule by schedule (and judged against the linearizations of the abstract spec); RECENCY BEFORE FULL for "
+        "compared schedule by schedule (and judged against the linearizations of the abstract spec); TWO HANDLES on one "
+        "shared cache (the second a pickle round trip of the first, as a worker process receives it; LRUCache, "
+        "HybridCache, shared DiskCache front; max_size 2..3): one handle fills, ONE handle clears, the other and then "
+        "both put/get/in/len past max_size, plus random handle-tagged sequences - judged by the abstract policy spec, "
+        "which does not know about handles; RECENCY BEFORE FULL for "
         "max_size 3..5 (a get of a non-newest resident key while slots are free, then overflow: scripts, the complete "
         "tree after `put 0; put 1` over 4 keys to the depth containing put,put,get,put,put, shared variant, the "
         "DiskCache front with max_size 1 / front 3, random fill-with-reads sequences); DiskCache RE-OPENED "
@@ -50,6 +54,9 @@ ASSUMPTIONS = [
     "in-memory LRU front until it leaves the front (len(c) can be smaller than the number of keys reported present) - "
     "this is the documented two-level behaviour and is part of the abstract specification, not a finding; a "
     "DiskCache reopened with a smaller max_size holds more than max_size files until the next put",
+    "several handles: a second handle on a shared cache is obtained by pickle.loads(pickle.dumps(cache)) inside the "
+    "harness process (it shares the manager objects and the cache directory exactly like the copy a child process "
+    "unpickles, and - unlike Process(args=...) - takes its own reference on them); real child processes are not started",
     "shared=True is exercised sequentially in-process against the same model as shared=False (all manager objects "
     "come from one multiprocessing.Manager started by the harness; a used shared LRU/Hybrid cache is reset by "
     "emptying its manager containers directly)",
@@ -440,6 +447,18 @@ def run_impl(c):
             box.fresh()
         except Exception as e:  # noqa: BLE001  (the constructor raised)
             return Err(e)
+        if c["kind"] == "seq" and c.get("handles"):
+            # several handles on ONE shared cache: handle 0 is the object created above, every other handle is a
+            # pickle round trip of it (what a worker process receives); operation i is issued through handle
+            # c["handles"][i].  All handles must behave as one cache: the model does not know about handles.
+            import pickle
+
+            hs = [box.cache] + [pickle.loads(pickle.dumps(box.cache)) for _ in range(max(c["handles"]))]
+            out = []
+            for o, h in zip(c["ops"], c["handles"]):
+                box.cache = hs[h]
+                out.append(box.apply(o))
+            return "".join(out)
         if c["kind"] == "seq":
             return "".join(box.apply(o) for o in c["ops"])
         if c["kind"] == "conc":
@@ -638,6 +657,68 @@ def recency_cases(rng, quick):
     return cases
 
 
+def handle_cases(rng, quick):
+    """shared=True with TWO handles on the same cache (the second obtained by pickling, as a worker process gets it):
+    one handle fills the cache, ONE handle issues clear(), then the other handle - and then both - put / get / in /
+    len past max_size.  Also the same without clear and random tagged sequences.  LRUCache, HybridCache and the
+    shared LRU front of DiskCache; max_size 2..3."""
+    cases = []
+
+    def both(ops):            # `in` for every key and len, asked through both handles
+        return [(o, h) for h in (0, 1) for o in ops]
+
+    def mk(cfg, tagged):
+        return {"kind": "seq", "cfg": cfg, "ops": [o for o, _ in tagged], "handles": [h for _, h in tagged]}
+
+    cfgs = []
+    for mx in (2, 3):
+        cfgs += [_lru(mx, True), _hyb(mx, shared=True)]
+    cfgs += [_disk(1, True, 2, True), _disk(2, True, 3, True)]
+    for cfg in cfgs:
+        hyb = cfg["cls"] == "hyb"
+        mx = cfg["ls"] if cfg["cls"] == "disk" else cfg["max"]
+        keys = mx + 3
+        probes = [["M", k] for k in range(keys)] + [["L"]]
+        P = lambda k, v: ["P", k, v, float(1 + (k + v) % 3) if hyb else 0.0]  # noqa: E731
+        for clearer in (0, 1):
+            other = 1 - clearer
+            for filler in ((0,) if quick and clearer else (0, 1)):
+                tg = [(P(k, k + 1), filler) for k in range(mx)] + [(["G", 0], other)]
+                tg += [(["X"], clearer)] + both(probes)
+                # the OTHER handle refills past max_size, then both handles work on the cache
+                for j, k in enumerate(range(mx, mx + 3)):
+                    tg += [(P(k % keys, 10 + j), other)] + both([["L"]])
+                tg += both(probes)
+                tg += [(P(0, 20), clearer), (P(1, 21), other), (["G", 0], other), (P(2, 22), clearer)] + both(probes)
+                tg += [(["G", k], (k + clearer) % 2) for k in range(keys)]
+                cases.append(mk(cfg, tg))
+        # two handles, no clear: fill through one, overflow through the other
+        tg = [(P(k, k + 1), 0) for k in range(mx)] + [(["G", 0], 1)] + [(P(mx, 9), 1)] + both(probes)
+        tg += [(P(mx + 1, 10), 0)] + both(probes)
+        cases.append(mk(cfg, tg))
+    for _ in range(10 if quick else 150):
+        cfg = rng.choice(cfgs)
+        hyb = cfg["cls"] == "hyb"
+        mx = cfg["ls"] if cfg["cls"] == "disk" else cfg["max"]
+        keys = mx + 2
+        tg = []
+        for i in range(rng.randint(10, 30)):
+            h, r, k = rng.randrange(2), rng.random(), rng.randrange(keys)
+            if r < 0.45:
+                tg.append((["P", k, rng.randrange(41), rng.choice([0.0, 1.0, 2.5]) if hyb else 0.0], h))
+            elif r < 0.65:
+                tg.append((["G", k], h))
+            elif r < 0.8:
+                tg.append((["M", k], h))
+            elif r < 0.9:
+                tg.append((["L"], h))
+            else:
+                tg.append((["X"], h))
+        tg += both([["M", k] for k in range(keys)] + [["L"]])
+        cases.append(mk(cfg, tg))
+    return cases
+
+
 def witnesses():
     P = lambda k, v, d=0.0: ["P", k, v, d]
     probe3 = [["M", 0], ["M", 1], ["M", 2], ["L"]]
@@ -712,6 +793,8 @@ def generate(rng, tier, mult):
     cases += reopen_cases(rng, quick)
     # --- reads before the cache is full must refresh recency (max_size >= 3)
     cases += recency_cases(rng, quick)
+    # --- shared=True: two handles (pickled copy) on one cache, clear() issued through one of them
+    cases += handle_cases(rng, quick)
     # --- two concurrent clients (locked operations put/get), all schedules
     cases += conc_cases(rng, quick)
     # --- random longer sequences
@@ -742,7 +825,9 @@ def nontrivial_key(c):
     puts = [o[1] for o in c["ops"] if o[0] == "P"]
     mx = cfg.get("max")
     if len(puts) != len(set(puts)) or (mx is not None and len(set(puts)) > mx):
-        return ("seq", ck, str(c["ops"]))
+        return ("seq", ck, str(c["ops"]), str(c.get("handles")))
+    if c.get("handles") and len(set(c["handles"])) > 1:
+        return ("seq", ck, str(c["ops"]), str(c["handles"]))
     return None
 
 
@@ -792,7 +877,10 @@ def shrink(c):
                 ops += [o] + [["M", k] for k in range(keys)] + [["L"]]
             out.append({"kind": "seq", "cfg": c["cfg"], "ops": ops})
         return out
-    ops = c["ops"]
+    ops, hs = c["ops"], c.get("handles")
     for i in range(len(ops)):
-        out.append({"kind": "seq", "cfg": c["cfg"], "ops": ops[:i] + ops[i + 1:]})
+        d = {"kind": "seq", "cfg": c["cfg"], "ops": ops[:i] + ops[i + 1:]}
+        if hs:
+            d["handles"] = hs[:i] + hs[i + 1:]
+        out.append(d)
     return out
